@@ -469,7 +469,13 @@ func (s *Shard) SearchPoints(searchRequest models.SearchRequest) ([]models.Searc
 	if searchRequest.Limit == 0 {
 		searchRequest.Limit = len(finalResults)
 	}
-	finalResults = finalResults[min(searchRequest.Offset, len(finalResults)):min(searchRequest.Offset+searchRequest.Limit, len(finalResults))]
+	// Offset+Limit may overflow for a huge offset, so we clamp without adding them
+	start := min(max(searchRequest.Offset, 0), len(finalResults))
+	end := len(finalResults)
+	if searchRequest.Limit < end-start {
+		end = start + max(searchRequest.Limit, 0)
+	}
+	finalResults = finalResults[start:end]
 	// ---------------------------
 	return finalResults, nil
 }
